@@ -331,6 +331,22 @@ impl StorageEngine {
         }
     }
     
+    /// Get a value together with its remaining time to live, under ONE lock acquisition:
+    /// the pair is the key's state at a single instant (used by the RDB writer)
+    pub fn get_with_ttl(&self, db: DatabaseIndex, key: &[u8]) -> Result<Option<(Value, Option<Duration>)>> {
+        let shard = self.get_shard(db, key)?;
+        let shard_guard = shard.read().unwrap();
+        
+        match shard_guard.data.get(key) {
+            Some(stored_value) if !stored_value.is_expired() => {
+                let ttl = stored_value.metadata.expires_at
+                    .map(|expires_at| expires_at.saturating_duration_since(Instant::now()));
+                Ok(Some((stored_value.value.clone(), ttl)))
+            }
+            _ => Ok(None),
+        }
+    }
+    
     /// Get string value
     pub fn get_string(&self, db: DatabaseIndex, key: &[u8]) -> Result<Option<Vec<u8>>> {
         match self.get(db, key)? {
